@@ -116,6 +116,10 @@ def step (s : St) (line : String) : St × String :=
     match getDB s name, parseSig sg with
     | some db, some sg => (s, showNats (defs db sg))
     | _, _ => (s, "bad-op")
+  | some [.atom "defs0", .atom name, .atom sg] =>
+    match getDB s name, parseSig sg with
+    | some db, some sg => (s, showNats (defsV0 db sg))
+    | _, _ => (s, "bad-op")
   | some [.atom "find", .atom name, .atom sg] =>
     match getDB s name, parseSig sg with
     | some db, some sg => (s, match find db sg with | some i => toString i | none => "none")
